@@ -257,6 +257,17 @@ class VectorProperty(Property):
             out += [self.job("4", x, o) for x in v4_random(rng, 3000)]
         return out
 
+    def accepted_neighbourhood(self, tier):
+        """the property's statement on whatever the library accepts among valid vectors and their
+        edit neighbourhood (used when the parser / constructor part of the cone is undecided)"""
+        rng = random.Random(1)
+        out = []
+        for ver, t in edit_neighbourhood(rng, 12 if tier == "quick" else 60, 150 if tier == "quick" else 300):
+            j = self.job(ver, t)
+            j["input"]["if_accepted"] = True
+            out.append(j)
+        return out, "%d strings of the edit neighbourhood of valid vectors (incl. wrapped in brackets / quotes / whitespace), where accepted" % len(out)
+
     def bounded(self, tier, seed):
         rng = random.Random(seed)
         n = 4000 if tier == "quick" else 60000
@@ -364,6 +375,10 @@ def edit_neighbourhood(rng, n_seeds, per_seed):
                         fs.insert(j, rng.choice(rng.choice(others).split("/")))
                     t = "/".join(fs)
                 out.append((ver, t))
+            # the whole vector wrapped in / followed by what surrounds vectors in prose
+            for a, b in (("(", ")"), ("[", "]"), ("<", ">"), ('"', '"'), ("'", "'"), (" ", " "), ("", "."), ("", ","), ("", ";"),
+                         ("", "\n"), ("\t", ""), ("", " "), (" ", ""), ("", ")"), ("(", ""), ("", "/"), ("/", ""), ("#", "")):
+                out.append((ver, a + s + b))
             # prefix damage
             if ver != "2":
                 for bad in ("CVSS:3.2/", "CVSS:4.1/", "cvss:3.1/", "CVSS:3.\u0661/", "CVSS:3.\uff10/", "CVSS:3.1", "", "CVSS:3.1//"):
@@ -982,7 +997,19 @@ class C13(Property):
     def concretize(self, o):
         w = (o.get("model") or {}).get("witness")
         if isinstance(w, str):
-            return [{"check": "C13", "input": {"text": " %s " % w, "delimited": []}}]
+            import re as _re
+
+            w = _re.sub(r"\\u\{([0-9a-fA-F]+)\}", lambda m: chr(int(m.group(1), 16)), w)
+            out = [{"check": "C13", "input": {"text": " %s " % w, "delimited": []}}]
+            # a witness of a delimiter lemma: its characters outside [A-Za-z:/] are tried as
+            # delimiters directly before / after sample valid vectors
+            sample = [("2", "AV:N/AC:L/Au:N/C:C/I:C/A:C"), ("3", "CVSS:3.0/AV:N/AC:L/PR:N/UI:N/S:U/C:H/I:H/A:H"),
+                      ("3", "CVSS:3.1/AV:L/AC:H/PR:L/UI:R/S:C/C:L/I:N/A:H/E:P/MAV:A")]
+            for c in sorted({ch for ch in w if not (ch.isascii() and (ch.isalpha() or ch in ":/"))}):
+                for ver, v in sample:
+                    for text in (c + v, v + c, c + v + c, "see " + v + c + " and", "x" + c + v):
+                        out.append({"check": "C13", "input": {"text": text, "delimited": [[ver, v]]}})
+            return out
         return []
 
     def widen(self, o, tier):
